@@ -25,28 +25,46 @@ def showEvent (e : Event) : List Char :=
 def parseSide (s : List Char) : Option Side :=
   if s = s2l "base" then some .base else if s = s2l "backup" then some .backup else none
 
-/-- write `data` through a freshly opened handle and close it -/
-def writeClose (cfg : Cfg) (h : WHandle) (data : List Char) : M (List (List Char)) := do
-  let r ← attempt (whenM (data ≠ []) (hWrite cfg h 0 (String.ofList data)))
-  match r with
-  | .error e =>
-    let _ ← attempt (hClose h)
-    pure [s2l "err-write", s2l (errName e)]
-  | .ok () =>
-    match ← attempt (hClose h) with
-    | .error e => pure [s2l "err-close", s2l (errName e)]
-    | .ok () => pure [s2l "ok", h.h.name]
+def showWritten (h : WHandle) : WriteOutcome → List (List Char)
+  | .ok => [s2l "ok", h.h.name]
+  | .errWrite e => [s2l "err-write", s2l (errName e)]
+  | .errClose e => [s2l "err-close", s2l (errName e)]
+
+def showOut : OpOut → List (List Char)
+  | .unit => [s2l "ok"]
+  | .written h o => showWritten h o
+  | .info i => s2l "ok" :: s2l "info" :: showInfo i
+  | .str s => [s2l "ok", s2l "str", s]
+
+/-- the operation a `bfs.op` line names (the histories of Model/History.lean) -/
+def parseOp (kind : String) (args : List (List Char)) : Option Op :=
+  match kind, args with
+  | "creat", [p, data] => some (.creat p (String.ofList data))
+  | "write", [p, flag, perm, data] => do
+      let flag ← natOf flag; let perm ← natOf perm
+      pure (.write p flag perm (String.ofList data))
+  | "mkdir", [p, m] => (natOf m).map (Op.mkdir p)
+  | "mkdirall", [p, m] => (natOf m).map (Op.mkdirAll p)
+  | "remove", [p] => some (.remove p)
+  | "removeall", [p] => some (.removeAll p)
+  | "rename", [o, n] => some (.rename o n)
+  | "symlink", [o, n] => some (.symlink o n)
+  | "chmod", [p, m] => (natOf m).map (Op.chmod p)
+  | "chown", [p, u, g] => do
+      let u ← intOf u; let g ← intOf g
+      pure (.chown p u g)
+  | "lchown", [p, u, g] => do
+      let u ← intOf u; let g ← intOf g
+      pure (.lchown p u g)
+  | "chtimes", [p, t] => (timeOf t).map (Op.chtimes p)
+  | "stat", [p] => some (.stat p)
+  | "lstat", [p] => some (.lstat p)
+  | "readlink", [p] => some (.readlink p)
+  | "force", [p] => some (.force p)
+  | _, _ => none
 
 def runOp (cfg : Cfg) (kind : String) (args : List (List Char)) : Option (M (List (List Char))) :=
   match kind, args with
-  | "creat", [p, data] => some (do
-      let h ← BackupFS.create cfg p
-      writeClose cfg h data)
-  | "write", [p, flag, perm, data] => do
-      let flag ← natOf flag; let perm ← natOf perm
-      pure (do
-        let h ← BackupFS.openFile cfg p flag perm
-        writeClose cfg h data)
   | "read", [p] => some (do
       let h ← BackupFS.openFile cfg p O_RDONLY 0
       let fi ← hStat cfg h
@@ -58,25 +76,9 @@ def runOp (cfg : Cfg) (kind : String) (args : List (List Char)) : Option (M (Lis
         let d ← peek cfg h
         let _ ← attempt (hClose h)
         pure [s2l "ok", s2l "data", h.h.name, d.toList])
-  | "mkdir", [p, m] => (natOf m).map (fun m => do BackupFS.mkdir cfg p m; pure [s2l "ok"])
-  | "mkdirall", [p, m] => (natOf m).map (fun m => do BackupFS.mkdirAll cfg p m; pure [s2l "ok"])
-  | "remove", [p] => some (do BackupFS.remove cfg p; pure [s2l "ok"])
-  | "removeall", [p] => some (do BackupFS.removeAll cfg p; pure [s2l "ok"])
-  | "rename", [o, n] => some (do BackupFS.rename cfg o n; pure [s2l "ok"])
-  | "symlink", [o, n] => some (do BackupFS.symlink cfg o n; pure [s2l "ok"])
-  | "chmod", [p, m] => (natOf m).map (fun m => do BackupFS.chmod cfg p m; pure [s2l "ok"])
-  | "chown", [p, u, g] => do
-      let u ← intOf u; let g ← intOf g
-      pure (do BackupFS.chown cfg p u g; pure [s2l "ok"])
-  | "lchown", [p, u, g] => do
-      let u ← intOf u; let g ← intOf g
-      pure (do BackupFS.lchown cfg p u g; pure [s2l "ok"])
-  | "chtimes", [p, t] => (timeOf t).map (fun t => do BackupFS.chtimes cfg p t t; pure [s2l "ok"])
-  | "stat", [p] => some (do let i ← BackupFS.stat cfg p; pure (s2l "ok" :: s2l "info" :: showInfo i))
-  | "lstat", [p] => some (do let i ← BackupFS.lstat cfg p; pure (s2l "ok" :: s2l "info" :: showInfo i))
-  | "readlink", [p] => some (do let s ← BackupFS.readlink cfg p; pure [s2l "ok", s2l "str", s])
-  | "force", [p] => some (do BackupFS.forceBackup cfg p; pure [s2l "ok"])
-  | _, _ => none
+  | _, _ => (parseOp kind args).map (fun op => do
+      let out ← op.exec cfg
+      pure (showOut out))
 
 def bfsCmd (st : BState) : List (List Char) → Option (BState × List (List Char))
   | [] => none
